@@ -24,6 +24,7 @@ RULE = (
     "not tile-aligned; distinct by spec."
     ' Also: an earlier image already tiled into the directory (the new one undefined over whole tiles); one StudyTiling applied to imag'
     'es of two modes; sub-tilings that travelled through pickle / copy; one tile whose storing fails with EDQUOT.'
+    ' Round 9: a third of the plain API cases use the LXY naming scheme.'
 )
 ASSUMPTIONS = ["ref_study model follows the statement", "PIL/numpy/astropy readers are correct"]
 EXHAUSTIVE = {"quick": "every width 1..2049 x heights {1,255,256,257,511,512,513,1024,1025}", "thorough": "all (w,h) pairs with w,h <= 600; widths 1..4097 x boundary heights"}
